@@ -26,6 +26,7 @@ import (
 	"net/http"
 	"net/http/httptest"
 	neturl "net/url"
+	"regexp"
 	"sort"
 	"strconv"
 	"strings"
@@ -56,7 +57,21 @@ type pxBody struct {
 	Gzip bool   `json:"gzip"`
 }
 
+// pxPathAd is the RequestAdaptor's `path:` section (pathadaptor.Spec).
+type pxPathAd struct {
+	Replace    string `json:"replace"`
+	AddPrefix  string `json:"addPrefix"`
+	TrimPrefix string `json:"trimPrefix"`
+	Regexp     string `json:"regexp"`
+	ReRepl     string `json:"reRepl"`
+}
+
 type pxAdaptor struct {
+	// request line (RequestAdaptor only)
+	Method string    `json:"method"`
+	Host   string    `json:"host"`
+	Path   *pxPathAd `json:"path"`
+
 	Body       string      `json:"body"`
 	Compress   bool        `json:"compress"`
 	Decompress bool        `json:"decompress"`
@@ -84,6 +99,27 @@ type pxStep struct {
 	Backend pxBackend   `json:"backend"`
 }
 
+// pxRetry: a pipeline-level Retry policy (waitDuration 1ms) referenced by the pool, plus the pool's failureCodes.
+type pxRetry struct {
+	Max          int   `json:"max"`
+	FailureCodes []int `json:"failureCodes"`
+}
+
+// pxMirror: the Proxy's mirrorPool; its filter matches requests carrying header Hdr with exactly Val.
+type pxMirror struct {
+	Hdr      string `json:"hdr"`
+	Val      string `json:"val"`
+	Server   string `json:"server"` // "ip" | "name"
+	KeepHost bool   `json:"keepHost"`
+}
+
+// pxPre is the scripted fate of one attempt before the final reply: the backend answers with Status
+// (body "fail") or, Kind "reset", reads the request and closes the connection without answering.
+type pxPre struct {
+	Kind   string `json:"kind"` // "status" | "reset"
+	Status int    `json:"status"`
+}
+
 type pxCfg struct {
 	Server      string     `json:"server"` // "ip" | "name"
 	KeepHost    bool       `json:"keepHost"`
@@ -95,9 +131,12 @@ type pxCfg struct {
 	ReqAd       *pxAdaptor `json:"reqAd"`
 	RespAd      *pxAdaptor `json:"respAd"`
 	Cache       *pxCache   `json:"cache"`
+	Retry       *pxRetry   `json:"retry"`
+	Mirror      *pxMirror  `json:"mirror"`
 }
 
 type pxBackend struct {
+	Pre    []pxPre     `json:"pre"` // attempts that fail before the reply below is given
 	Status int         `json:"status"`
 	Hdrs   [][2]string `json:"hdrs"`
 	Body   pxBody      `json:"body"`
@@ -171,14 +210,25 @@ type pxOracle struct {
 	DecPath   string      `json:"decPath"`  // net/url: decoded path of the client's request-target
 	RawQuery  string      `json:"rawQuery"` // net/url: RawQuery of the client's request-target
 	Target    bool        `json:"target"`   // request-target parses (url.ParseRequestURI)
+	// RequestAdaptor path section: regexp.ReplaceAllString on the decoded path (standard library), and net/url's
+	// default encoding of every candidate adapted path
+	ReRepl    string      `json:"reRepl"`
+	Esc       [][2]string `json:"esc"`
+	Pre       pxBlob      `json:"pre"`       // the body of a scripted failure reply
+	MirrorURL string      `json:"mirrorURL"` // the mirror pool's server URL and host:port
+	MirrorHP  string      `json:"mirrorHP"`
+	Stub      pxBlob      `json:"stub"` // what a mirror is sent instead of a stream body
 }
 
 type pxObs struct {
-	Hits   int         `json:"hits"` // number of requests the backend received
-	B      *pxSeenReq  `json:"b"`
-	C      *pxSeenResp `json:"c"`
-	Oracle pxOracle    `json:"oracle"`
-	Err    string      `json:"error,omitempty"`
+	Hits   int          `json:"hits"`  // number of requests the backend received
+	All    []*pxSeenReq `json:"all"`   // every one of them, in order
+	MHits  int          `json:"mhits"` // requests the mirror backend received
+	M      *pxSeenReq   `json:"m"`
+	B      *pxSeenReq   `json:"b"`
+	C      *pxSeenResp  `json:"c"`
+	Oracle pxOracle     `json:"oracle"`
+	Err    string       `json:"error,omitempty"`
 }
 
 // ---------------------------------------------------------------- helpers
@@ -300,6 +350,11 @@ type pxEnv struct {
 	script   pxBackend
 	hits     int
 	seen     *pxSeenReq
+	all      []*pxSeenReq
+	mback    *httptest.Server
+	mhits    int
+	mseen    *pxSeenReq
+	caseID   int // stamped on every client request (X-Verif-Case) so that a late mirror request of an earlier case is not attributed to this one
 	front    *httptest.Server
 	handler  http.Handler
 	panicked string
@@ -335,6 +390,7 @@ func pxGetEnv() *pxEnv {
 	pxEnvOnce.Do(func() {
 		e := &pxEnv{}
 		e.back = httptest.NewServer(http.HandlerFunc(e.serveBackend))
+		e.mback = httptest.NewServer(http.HandlerFunc(e.serveMirror))
 		e.front = httptest.NewUnstartedServer(http.HandlerFunc(func(w http.ResponseWriter, r *http.Request) {
 			e.mu.Lock()
 			h := e.handler
@@ -353,7 +409,7 @@ func pxGetEnv() *pxEnv {
 	return pxTheEnv
 }
 
-func (e *pxEnv) serveBackend(w http.ResponseWriter, r *http.Request) {
+func pxRecord(r *http.Request) *pxSeenReq {
 	body, err := io.ReadAll(r.Body)
 	seen := &pxSeenReq{
 		Method: r.Method, URI: r.RequestURI, Path: r.URL.Path, RawQuery: r.URL.RawQuery, Host: r.Host,
@@ -365,11 +421,56 @@ func (e *pxEnv) serveBackend(w http.ResponseWriter, r *http.Request) {
 		d, derr := pxGunzip(body)
 		seen.DecLen, seen.DecSum, seen.DecErr = len(d), pxSum(d), pxErrClass(derr)
 	}
+	return seen
+}
+
+// serveMirror is the mirror pool's backend: it records what it gets and answers with something the
+// primary never sends, so that any influence on the client-visible response would show.
+func (e *pxEnv) serveMirror(w http.ResponseWriter, r *http.Request) {
+	seen := pxRecord(r)
 	e.mu.Lock()
+	if r.Header.Get("X-Verif-Case") == strconv.Itoa(e.caseID) {
+		e.mhits++
+		e.mseen = seen
+	}
+	e.mu.Unlock()
+	w.Header().Set("X-From-Mirror", "1")
+	w.WriteHeader(418)
+	io.WriteString(w, "answer of the mirror backend")
+}
+
+const pxPreBody = "fail"
+
+func (e *pxEnv) serveBackend(w http.ResponseWriter, r *http.Request) {
+	seen := pxRecord(r)
+	e.mu.Lock()
+	k := e.hits
 	e.hits++
 	e.seen = seen
+	e.all = append(e.all, seen)
 	sc := e.script
 	e.mu.Unlock()
+
+	if k < len(sc.Pre) {
+		if sc.Pre[k].Kind == "reset" {
+			if hj, ok := w.(http.Hijacker); ok {
+				if conn, _, err := hj.Hijack(); err == nil {
+					conn.Close()
+				}
+			}
+			return
+		}
+		st := sc.Pre[k].Status
+		if st < 200 || st > 599 || st == 204 || st == 304 {
+			st = 503
+		}
+		w.Header().Set("Content-Length", strconv.Itoa(len(pxPreBody)))
+		w.WriteHeader(st)
+		if r.Method != http.MethodHead {
+			io.WriteString(w, pxPreBody)
+		}
+		return
+	}
 
 	wire := pxWire(sc.Body)
 	status := sc.Status
@@ -441,6 +542,29 @@ func pxYAMLStr(s string) string { return strconv.Quote(s) }
 func pxAdaptorYAML(name, kind string, a *pxAdaptor) string {
 	var sb strings.Builder
 	fmt.Fprintf(&sb, "- name: %s\n  kind: %s\n", name, kind)
+	if kind == "RequestAdaptor" {
+		if a.Method != "" {
+			fmt.Fprintf(&sb, "  method: %s\n", pxYAMLStr(a.Method))
+		}
+		if a.Host != "" {
+			fmt.Fprintf(&sb, "  host: %s\n", pxYAMLStr(a.Host))
+		}
+		if p := a.Path; p != nil {
+			sb.WriteString("  path:\n")
+			if p.Replace != "" {
+				fmt.Fprintf(&sb, "    replace: %s\n", pxYAMLStr(p.Replace))
+			}
+			if p.AddPrefix != "" {
+				fmt.Fprintf(&sb, "    addPrefix: %s\n", pxYAMLStr(p.AddPrefix))
+			}
+			if p.TrimPrefix != "" {
+				fmt.Fprintf(&sb, "    trimPrefix: %s\n", pxYAMLStr(p.TrimPrefix))
+			}
+			if p.Regexp != "" {
+				fmt.Fprintf(&sb, "    regexpReplace:\n      regexp: %s\n      replace: %s\n", pxYAMLStr(p.Regexp), pxYAMLStr(p.ReRepl))
+			}
+		}
+	}
 	if a.Body != "" {
 		fmt.Fprintf(&sb, "  body: %s\n", pxYAMLStr(a.Body))
 	}
@@ -482,6 +606,15 @@ func (e *pxEnv) serverURL(cfg pxCfg) (string, string) {
 	return "http://" + hp, hp
 }
 
+func (e *pxEnv) mirrorURL(m *pxMirror) (string, string) {
+	addr := e.mback.Listener.Addr().(*net.TCPAddr)
+	hp := fmt.Sprintf("127.0.0.1:%d", addr.Port)
+	if m.Server == "name" {
+		hp = fmt.Sprintf("localhost:%d", addr.Port)
+	}
+	return "http://" + hp, hp
+}
+
 type pxSUT struct {
 	pl *pipeline.Pipeline
 	m  *mux
@@ -495,7 +628,12 @@ func (e *pxEnv) build(cfg pxCfg) (sut *pxSUT, err error) {
 	}()
 	url, _ := e.serverURL(cfg)
 	var sb strings.Builder
-	sb.WriteString("name: pl\nkind: Pipeline\nfilters:\n")
+	sb.WriteString("name: pl\nkind: Pipeline\n")
+	retry := cfg.Retry != nil && cfg.Retry.Max > 0
+	if retry {
+		fmt.Fprintf(&sb, "resilience:\n- name: retry\n  kind: Retry\n  maxAttempts: %d\n  waitDuration: 1ms\n", cfg.Retry.Max)
+	}
+	sb.WriteString("filters:\n")
 	if cfg.ReqAd != nil {
 		sb.WriteString(pxAdaptorYAML("reqad", "RequestAdaptor", cfg.ReqAd))
 	}
@@ -504,7 +642,25 @@ func (e *pxEnv) build(cfg pxCfg) (sut *pxSUT, err error) {
 	if cfg.Compression >= 0 {
 		fmt.Fprintf(&sb, "  compression:\n    minLength: %d\n", cfg.Compression)
 	}
+	if m := cfg.Mirror; m != nil && m.Hdr != "" {
+		murl, _ := e.mirrorURL(m)
+		fmt.Fprintf(&sb, "  mirrorPool:\n    filter:\n      headers:\n        %s:\n          exact: %s\n    servers:\n    - url: %s\n      keepHost: %v\n",
+			pxYAMLStr(m.Hdr), pxYAMLStr(m.Val), murl, m.KeepHost)
+	}
 	fmt.Fprintf(&sb, "  pools:\n  - serverMaxBodySize: %d\n    servers:\n    - url: %s\n      keepHost: %v\n", cfg.PoolMax, url, cfg.KeepHost)
+	if retry {
+		sb.WriteString("    retryPolicy: retry\n")
+		if len(cfg.Retry.FailureCodes) > 0 {
+			sb.WriteString("    failureCodes: [")
+			for i, c := range cfg.Retry.FailureCodes {
+				if i > 0 {
+					sb.WriteString(", ")
+				}
+				fmt.Fprintf(&sb, "%d", c)
+			}
+			sb.WriteString("]\n")
+		}
+	}
 	if c := cfg.Cache; c != nil && len(c.Codes) > 0 && len(c.Methods) > 0 && c.MaxEntryBytes > 0 {
 		fmt.Fprintf(&sb, "    memoryCache:\n      expiration: 10m\n      maxEntryBytes: %d\n      codes: [", c.MaxEntryBytes)
 		for i, code := range c.Codes {
@@ -552,7 +708,7 @@ func (s *pxSUT) close() {
 
 // ---------------------------------------------------------------- raw client
 
-func pxRequestBytes(sc *pxScenario) []byte {
+func pxRequestBytes(sc *pxScenario, caseID int) []byte {
 	var b bytes.Buffer
 	target := sc.Path
 	if target == "" {
@@ -569,6 +725,9 @@ func pxRequestBytes(sc *pxScenario) []byte {
 	fmt.Fprintf(&b, "Host: %s\r\n", sc.Host)
 	for _, kv := range sc.Hdrs {
 		fmt.Fprintf(&b, "%s: %s\r\n", kv[0], kv[1])
+	}
+	if sc.Cfg.Mirror != nil {
+		fmt.Fprintf(&b, "X-Verif-Case: %d\r\n", caseID)
 	}
 	wire := pxWire(sc.Body)
 	if sc.Body.Gzip {
@@ -712,14 +871,14 @@ func pxParseResponse(method string, raw []byte, readErr error) *pxSeenResp {
 	return r
 }
 
-func (e *pxEnv) roundTrip(sc *pxScenario) *pxSeenResp {
+func (e *pxEnv) roundTrip(sc *pxScenario, caseID int) *pxSeenResp {
 	conn, err := net.DialTimeout("tcp", e.front.Listener.Addr().String(), 5*time.Second)
 	if err != nil {
 		return &pxSeenResp{Err: "dial", Declared: -1}
 	}
 	defer conn.Close()
 	conn.SetDeadline(time.Now().Add(20 * time.Second))
-	reqBytes := pxRequestBytes(sc)
+	reqBytes := pxRequestBytes(sc, caseID)
 	done := make(chan struct{})
 	short := sc.Body.Enc == "lie" && sc.Body.Decl > len(pxWire(sc.Body))
 	go func() { // write concurrently: the server may answer (413) before reading everything
@@ -740,6 +899,7 @@ func (e *pxEnv) oracleFor(sc *pxScenario) pxOracle {
 	url, hp := e.serverURL(sc.Cfg)
 	o := pxOracle{Req: pxBlobOf(pxPlain(sc.Body)), Back: pxBlobOf(pxPlain(sc.Backend.Body)), ServerURL: url, ServerHP: hp}
 	o.Empty = pxBlobOf(nil)
+	var addCanonLater []string
 	target := sc.Path
 	if target == "" {
 		target = "/"
@@ -753,6 +913,24 @@ func (e *pxEnv) oracleFor(sc *pxScenario) pxOracle {
 	}
 	if sc.Cfg.ReqAd != nil {
 		o.ReqAd = pxBlobOf([]byte(sc.Cfg.ReqAd.Body))
+		if p := sc.Cfg.ReqAd.Path; p != nil && o.Target {
+			cands := []string{p.Replace, p.AddPrefix + o.DecPath, strings.TrimPrefix(o.DecPath, p.TrimPrefix)}
+			if p.Regexp != "" {
+				if re, err := regexp.Compile(p.Regexp); err == nil {
+					o.ReRepl = re.ReplaceAllString(o.DecPath, p.ReRepl)
+					cands = append(cands, o.ReRepl)
+				}
+			}
+			for _, c := range cands {
+				o.Esc = append(o.Esc, [2]string{c, (&neturl.URL{Path: c}).EscapedPath()})
+			}
+		}
+	}
+	o.Pre = pxBlobOf([]byte(pxPreBody))
+	o.Stub = pxBlobOf([]byte("cannot send a stream body to mirror"))
+	if m := sc.Cfg.Mirror; m != nil {
+		o.MirrorURL, o.MirrorHP = e.mirrorURL(m)
+		addCanonLater = append(addCanonLater, m.Hdr)
 	}
 	if sc.Cfg.RespAd != nil {
 		o.RespAd = pxBlobOf([]byte(sc.Cfg.RespAd.Body))
@@ -777,6 +955,9 @@ func (e *pxEnv) oracleFor(sc *pxScenario) pxOracle {
 	for _, kv := range sc.Backend.Hdrs {
 		addCanon(kv[0])
 	}
+	for _, n := range addCanonLater {
+		addCanon(n)
+	}
 	for _, a := range []*pxAdaptor{sc.Cfg.ReqAd, sc.Cfg.RespAd} {
 		if a == nil {
 			continue
@@ -799,10 +980,38 @@ func (e *pxEnv) runOn(sut *pxSUT, sc *pxScenario) *pxObs {
 	obs := &pxObs{Oracle: e.oracleFor(sc)}
 	e.mu.Lock()
 	e.script, e.hits, e.seen, e.handler, e.panicked = sc.Backend, 0, nil, sut.m, ""
+	e.all, e.mhits, e.mseen = nil, 0, nil
+	e.caseID++
+	caseID := e.caseID
 	e.mu.Unlock()
 
-	obs.C = e.roundTrip(sc)
+	obs.C = e.roundTrip(sc, caseID)
+	// The mirror pool works in its own goroutine: when the scenario's request carries the mirror filter's
+	// header, give its request a moment to arrive. The mirror request is built on the client request's context,
+	// which net/http cancels when the primary's answer is complete, so it legitimately may never arrive: "not
+	// observed" is admissible for the judge, only an observed mirror request is compared with the model.
+	if m := sc.Cfg.Mirror; m != nil && m.Hdr != "" {
+		want := false
+		for _, kv := range sc.Hdrs {
+			if http.CanonicalHeaderKey(kv[0]) == http.CanonicalHeaderKey(m.Hdr) && kv[1] == m.Val {
+				want = true
+			}
+		}
+		e.mu.Lock()
+		want = want && e.hits > 0 // the Proxy ran (the mirror goroutine is started before the primary is contacted)
+		e.mu.Unlock()
+		for i := 0; want && i < 150; i++ {
+			e.mu.Lock()
+			got := e.mhits > 0
+			e.mu.Unlock()
+			if got {
+				break
+			}
+			time.Sleep(2 * time.Millisecond)
+		}
+	}
 	e.mu.Lock()
+	obs.All, obs.MHits, obs.M = e.all, e.mhits, e.mseen
 	if e.panicked != "" {
 		obs.C.Err = "server-panic: " + e.panicked
 	}
